@@ -202,6 +202,12 @@ def num(v):
 IDENTITY_CALLS = {
     "std::convert::From::from", "std::convert::Into::into", "std::clone::Clone::clone",
     "std::borrow::Borrow::borrow", "std::convert::identity", "std::borrow::ToOwned::to_owned",
+    # views of the same string / slice / vector contents
+    "std::string::String::as_str", "std::ops::Deref::deref", "std::convert::AsRef::as_ref", "std::vec::Vec::<T, A>::as_slice",
+    "std::vec::Vec::<T>::as_slice", "std::string::String::as_mut_str", "std::ops::DerefMut::deref_mut",
+    # Option<&T> -> Option<T>: the same optional value for a Copy/Clone payload
+    "std::option::Option::<&T>::copied", "std::option::Option::<&T>::cloned",
+    "std::option::Option::<&mut T>::copied", "std::option::Option::<&mut T>::cloned",
 }
 REAL_FUNCS = {"sqrt", "exp", "ln", "ln_1p", "tanh", "atanh", "abs", "round", "floor", "powf", "powi",
               "max", "min", "clamp", "unsigned_abs", "saturating_add", "saturating_sub"}
@@ -341,6 +347,12 @@ def canon_cond(c, pol=True, total=False):
             continue
         break
     return c, pol
+
+
+def guard_holds(guards, c, pol=True, total=False):
+    """is condition c (with polarity pol) one of the path conditions, up to the canonical reading of canon_cond?"""
+    want = canon_cond(c, pol, total)
+    return any(canon_cond(g, p, total) == want for g, p in guards if isinstance(g, Poly))
 
 
 def split_signed(v):
@@ -659,6 +671,11 @@ class SymEval:
             flip = {"Gt": "Lt", "Ge": "Le"}
             if op in flip:
                 op, a, b = flip[op], b, a
+            if isinstance(a, Poly) and isinstance(b, Poly):
+                dc = (a - b).const_value()
+                if dc is not None:
+                    # both sides differ by a known constant: the comparison is decided
+                    return ("bool", {"Eq": dc == 0, "Ne": dc != 0, "Lt": dc < 0, "Le": dc <= 0}[op])
             if op in ("Eq", "Ne") and order_of(vkey(a)) > order_of(vkey(b)):
                 a, b = b, a
             return app(op.lower(), a, b)
@@ -801,6 +818,13 @@ class SymEval:
             except Unsupported:
                 pass
             arms.append((repr(pat_key(a["pat"])), self.eval(a["body"], e2)))
+        # match opt { Some(v) => v, None => d }  is  opt.unwrap_or(d)
+        if len(arms) == 2 and isinstance(s, Poly):
+            by = {k: v for k, v in arms}
+            some = [k for k in by if k.startswith("('Some'")]
+            none = [k for k in by if "None" in k and not k.startswith("('Some'")]
+            if len(some) == 1 and len(none) == 1 and by[some[0]] == app("payload0", s) and not any("guard" in a for a in n["arms"]):
+                return app("std::option::Option::<T>::unwrap_or", s, by[none[0]])
         return app("match", s, tuple(arms))
 
     def call_fn(self, path, inst, args, n, env):
